@@ -20,7 +20,7 @@ import (
 
 func runLifetime(e *ev.Env, w *witnesses) {
 	e.Cases("lifetime", e.N(160, 6000), func(c *ev.Case) { lifetimeCase(e, w, c, nil) })
-	e.Note("lifetime", "sequential histories of 3-9 requests over 1-2 keys with whole-second advances chosen around Lifetime (1s, L/2, L-1s, L+1s, 2L); backends: vstore and the default memory storage; asserts only at elapsed <= L-1s (must replay)")
+	e.Note("lifetime", "sequential histories of 3-9 requests over 1-2 keys with whole-second advances chosen around Lifetime (1s, L/2, L-1s, L+1s, 2L); backends: vstore and the default memory storage; a third of the histories use one key whose handler answers identically every time (ConstResp) on the default memory storage; asserts only at elapsed <= L-1s since the last successful execution (must replay)")
 }
 
 type lifeFixed struct {
@@ -35,18 +35,33 @@ func lifetimeCase(e *ev.Env, w *witnesses, c *ev.Case, fixed *lifeFixed) {
 		sc, advs = &fixed.sc, fixed.advs
 	} else {
 		r := c.R
-		L := gen.Pick(r, []time.Duration{2 * time.Second, 3 * time.Second, 5 * time.Second, 30 * time.Second, 0, 90 * time.Minute})
+		L := gen.Pick(r, []time.Duration{time.Second, 2 * time.Second, 3 * time.Second, 5 * time.Second, 8 * time.Second, 30 * time.Second, 0, 90 * time.Minute})
 		eff := L
 		if eff == 0 {
 			eff = 30 * time.Minute
 		}
 		sc = &scenario{Lifetime: L, MemStore: r.Chance(1, 4), ShapeBase: r.Intn(len(shapes))}
-		if r.Bool() {
+		switch r.Intn(5) {
+		case 0, 1:
 			sc.Keep = keepList
+		case 2:
+			sc.Keep = gen.Pick(r, [][]string{keepNone, keepCT, keepEvery})
+		}
+		// a third of the histories: one key whose handler always answers identically (so a
+		// re-execution after expiry writes the very bytes that are stored already), recorded
+		// with at most one header, mostly on the default memory storage
+		constant := r.Chance(1, 3)
+		if constant {
+			sc.ConstResp, sc.MemStore = true, r.Chance(3, 4)
+			sc.Keep = gen.Pick(r, [][]string{keepNone, keepCT})
 		}
 		n := r.Range(3, 9)
 		for i := 0; i < n; i++ {
-			switch r.PickW(60, 15, 13, 12) {
+			kind := r.PickW(60, 15, 13, 12)
+			if constant {
+				kind = 0
+			}
+			switch kind {
 			case 0:
 				sc.Reqs = append(sc.Reqs, dup(gen.Pick(r, []string{"POST", "PUT", "PATCH", "DELETE"})))
 			case 1:
@@ -64,6 +79,9 @@ func lifetimeCase(e *ev.Env, w *witnesses, c *ev.Case, fixed *lifeFixed) {
 				}
 			}
 			menu := []time.Duration{0, time.Second, eff / 2, eff - time.Second, eff - time.Second, eff + time.Second, eff + time.Second, 2 * eff}
+			if constant {
+				menu = []time.Duration{0, 0, time.Second, eff - time.Second, eff + time.Second, eff + time.Second, eff + 2*time.Second}
+			}
 			advs = append(advs, gen.Pick(r, menu).Truncate(time.Second))
 		}
 	}
